@@ -55,6 +55,7 @@ func c14Mutate(r *kernel.RNG, in string) string {
 }
 
 func c14Decoders(w *kernel.World, r *kernel.RNG, mysql bool, schemaYAML, censorYAML string, statements []string) {
+	c14Tokens(w, r, map[bool]string{true: "mysql", false: "pg"}[mysql])
 	guard := func(site, input string, f func()) {
 		defer func() {
 			if x := recover(); x != nil {
